@@ -72,9 +72,16 @@ var rePool = []ReEntry{
 
 var curlyRe = ReEntry{`^pre-`, nil, []string{"pre-x", "pre-"}, []string{"x", "apre-", "a"}}
 
+// curlyAny: CurlyRouter evaluates a regular expression on one segment, so ".*" is "any one
+// segment" there - wherever it stands, and nothing like the tail wildcard {name:*}
+var curlyAny = ReEntry{`.*`, []string{"a", "x.y", "42", "a-b", "users"}, nil, nil}
+
 func reEntry(re string) ReEntry {
 	if re == curlyRe.Re {
 		return curlyRe
+	}
+	if re == curlyAny.Re {
+		return curlyAny
 	}
 	for _, e := range rePool {
 		if e.Re == re {
@@ -173,12 +180,15 @@ func (c *tableCtx) seg(t *rapid.T, name string, root, last bool) model.Seg {
 		s.Name = name
 		n := len(rePool)
 		if cfg.CurlyRegex && !root {
-			n++
+			n += 2
 		}
 		i := rapid.IntRange(0, n-1).Draw(t, "re")
-		if i == len(rePool) {
+		switch {
+		case i == len(rePool):
 			s.Re = curlyRe.Re
-		} else {
+		case i == len(rePool)+1:
+			s.Re = curlyAny.Re
+		default:
 			s.Re = rePool[i].Re
 		}
 	case model.Affix:
